@@ -162,6 +162,7 @@ type precCase struct {
 	logBytes  []byte
 	haveLog   bool
 	large     bool
+	medium    logMedium // what holds the log file (drawn last, so that the rest of the case does not depend on it)
 	rimOffset int               // offset of the first RIM event in the event stream (after the header record)
 	varFiles  map[string][]byte // file name under the efivarfs root -> content
 	rawBlob   map[int][]byte    // event index -> raw locator
@@ -192,7 +193,11 @@ func randMeasurement(r *rand.Rand) []byte {
 var varNames = []string{"FirmwareRIM", "Rim2", "GceRimΩ", "a b", "x"}
 
 func (pc *precCase) describe() string {
-	return fmt.Sprintf("el=%s mfr=%q quote=%s entry=%v provider=%s getter=%s force=%v", pc.shape.name, pc.mfrOpt, pc.q.kind.name, pc.q.entry, pc.prov, pc.getter, pc.force)
+	s := fmt.Sprintf("el=%s mfr=%q quote=%s entry=%v provider=%s getter=%s force=%v", pc.shape.name, pc.mfrOpt, pc.q.kind.name, pc.q.entry, pc.prov, pc.getter, pc.force)
+	if pc.haveLog {
+		s += " log-on=" + pc.medium.String()
+	}
+	return s
 }
 
 func (pc *precCase) build(r *rand.Rand, id int) {
@@ -344,6 +349,7 @@ func (pc *precCase) build(r *rand.Rand, id int) {
 		}
 		finish()
 	}
+	pc.medium = drawMedium(r)
 }
 
 // elModel is the documented precedence: among the events whose firmware manufacturer matches
@@ -456,7 +462,7 @@ func newScratch() *scratch {
 }
 func (s *scratch) close() { os.RemoveAll(s.dir) }
 
-func (pc *precCase) materialise(dir string) (logPath, efiRoot string) {
+func (pc *precCase) materialise(dir string) (log *placedLog, efiRoot string) {
 	efiRoot = filepath.Join(dir, "efivars")
 	must(os.MkdirAll(efiRoot, 0o755))
 	for n, b := range pc.varFiles {
@@ -464,12 +470,12 @@ func (pc *precCase) materialise(dir string) (logPath, efiRoot string) {
 	}
 	switch {
 	case pc.shape.file == "absent":
-		logPath = ""
+		log = &placedLog{}
 	case pc.shape.file == "missing":
-		logPath = filepath.Join(dir, "no-such-log")
+		log = &placedLog{path: filepath.Join(dir, "no-such-log")}
 	default:
-		logPath = filepath.Join(dir, "binary_bios_measurements")
-		must(os.WriteFile(logPath, pc.logBytes, 0o644))
+		log, _ = placeLog(dir, "binary_bios_measurements", pc.logBytes, pc.medium)
+		pc.medium = log.medium
 	}
 	return
 }
@@ -480,10 +486,10 @@ func must(err error) {
 	}
 }
 
-func (pc *precCase) runDirect(c *core.Ctx, i int, gen, logPath, efiRoot string) outcome {
+func (pc *precCase) runDirect(c *core.Ctx, i int, gen string, log *placedLog, efiRoot string) outcome {
 	var o outcome
 	g := &recGetter{fail: pc.getter == "fails"}
-	opts := &extract.Options{FirmwareManufacturer: pc.mfrOpt, EventLogLocation: logPath, UEFIVariableReader: exel.MakeEfiVarFSReader(efiRoot),
+	opts := &extract.Options{FirmwareManufacturer: pc.mfrOpt, EventLogLocation: log.path, UEFIVariableReader: exel.MakeEfiVarFSReader(efiRoot),
 		Quote: pc.quote, ForceFetch: pc.force}
 	if pc.getter != "nil" {
 		opts.Getter = g
@@ -495,12 +501,13 @@ func (pc *precCase) runDirect(c *core.Ctx, i int, gen, logPath, efiRoot string) 
 	default:
 		opts.Provider = &provider{quote: pc.provQuote}
 	}
-	m := c.Guard(i, entryDirect, gen, core.Budget{}, func() { o.out, o.err = extract.Endorsement(opts) })
+	var m core.Measured
+	log.serve(func() { m = c.Guard(i, entryDirect, gen, core.Budget{}, func() { o.out, o.err = extract.Endorsement(opts) }) })
 	o.urls, o.panicked = g.urls, m.Panicked
 	return o
 }
 
-func (pc *precCase) runCLI(c *core.Ctx, i int, gen, logPath, efiRoot string) outcome {
+func (pc *precCase) runCLI(c *core.Ctx, i int, gen string, log *placedLog, efiRoot string) outcome {
 	var o outcome
 	g := &recGetter{fail: pc.getter == "fails"}
 	io := doubles.NewMemIO()
@@ -514,7 +521,7 @@ func (pc *precCase) runCLI(c *core.Ctx, i int, gen, logPath, efiRoot string) out
 	default:
 		cli.Provider = &provider{quote: pc.provQuote}
 	}
-	args := []string{"extract", "--out=out.binarypb", "--eventlog=" + logPath, "--firmware_manufacturer=" + pc.mfrOpt, "--efivarfs=" + efiRoot}
+	args := []string{"extract", "--out=out.binarypb", "--eventlog=" + log.path, "--firmware_manufacturer=" + pc.mfrOpt, "--efivarfs=" + efiRoot}
 	if pc.force {
 		args = append(args, "--force_fetch")
 	}
@@ -522,7 +529,8 @@ func (pc *precCase) runCLI(c *core.Ctx, i int, gen, logPath, efiRoot string) out
 		io.Files["quote.bin"] = pc.quote
 		args = append(args, "quote.bin")
 	}
-	m := c.Guard(i, entryCLI, gen, core.Budget{}, func() { o.err = cli.Run(args...) })
+	var m core.Measured
+	log.serve(func() { m = c.Guard(i, entryCLI, gen, core.Budget{}, func() { o.err = cli.Run(args...) }) })
 	o.out = io.Files["out.binarypb"]
 	o.urls, o.panicked = g.urls, m.Panicked
 	return o
@@ -685,7 +693,7 @@ func precDecode(idx int) *precCase {
 }
 
 type precStats struct {
-	local, localDeep, entry, fetched, uriSel, cliRuns int
+	local, localDeep, localPipe, entry, fetched, uriSel, cliRuns int
 	sampled                                           map[string]bool
 }
 
@@ -695,17 +703,22 @@ func runPrec(c *core.Ctx, sc *scratch, i, idx int, st *precStats) {
 	pc := precDecode(idx)
 	viaCLI := r.IntN(3) == 0 // drawn, not i%3: the index is aligned with the product's radix in the thorough tier
 	pc.build(r, i)
-	gen := "precedence/" + pc.describe()
-	c.Begin(i, gen, entryDirect, []byte(pc.describe()))
 	dir := filepath.Join(sc.dir, fmt.Sprintf("p%d", i))
 	must(os.MkdirAll(dir, 0o755))
 	defer os.RemoveAll(dir)
-	logPath, efiRoot := pc.materialise(dir)
+	log, efiRoot := pc.materialise(dir) // settles the medium actually used, which the description names
+	gen := "precedence/" + pc.describe()
+	c.Begin(i, gen, entryDirect, []byte(pc.describe()))
 
-	o1 := pc.runDirect(c, i, gen, logPath, efiRoot)
+	o1 := pc.runDirect(c, i, gen, log, efiRoot)
+	if log.tainted { // the pipe did not take the log in one piece: nothing about this case is judged
+		c.Count("log-medium/pipe-not-served-whole(case-skipped)", 1)
+		c.End(i)
+		return
+	}
 	pc.judge(c, i, entryDirect, gen, o1)
-	o2 := pc.runDirect(c, i, gen, logPath, efiRoot)
-	if !o1.panicked && !o2.panicked && o1.key() != o2.key() {
+	o2 := pc.runDirect(c, i, gen, log, efiRoot)
+	if !o1.panicked && !o2.panicked && !log.tainted && o1.key() != o2.key() {
 		c.Oracle(i, entryDirect, "not-deterministic", gen, "same inputs, two results: %.200s vs %.200s", o1.key(), o2.key())
 	}
 	state, _, _ := pc.elModel()
@@ -722,6 +735,15 @@ func runPrec(c *core.Ctx, sc *scratch, i, idx int, st *precStats) {
 		st.local++
 		if pc.rimOffset > 4096 {
 			st.localDeep++
+		}
+	}
+	if pc.haveLog {
+		c.Count("log-medium/"+pc.medium.String(), 1)
+		if !pc.force && pc.medium != mediumRegular {
+			c.Cell("prec-log-medium|%s|el=%s|%s/%s|urls=%d", pc.medium, pc.shape.name, state, outc, len(o1.urls))
+			if state == "blob" && o1.err == nil && log.served > 0 {
+				st.localPipe++
+			}
 		}
 	}
 	if pc.large && pc.haveLog {
@@ -747,8 +769,10 @@ func runPrec(c *core.Ctx, sc *scratch, i, idx int, st *precStats) {
 	// the command line front end on a slice of the product
 	if viaCLI && pc.prov != "none" { // the command always wraps a provider, so "none" has no counterpart there
 		c.Begin(i, gen, entryCLI, []byte(pc.describe()))
-		o3 := pc.runCLI(c, i, gen, logPath, efiRoot)
-		pc.judge(c, i, entryCLI, gen, o3)
+		o3 := pc.runCLI(c, i, gen, log, efiRoot)
+		if !log.tainted {
+			pc.judge(c, i, entryCLI, gen, o3)
+		}
 		st.cliRuns++
 	}
 	c.End(i)
